@@ -10,6 +10,7 @@ projection of the message actually handed to the channel (after serialisation an
 and send carries exactly the provider's metadata.
 """
 import base64
+import os
 import sys
 import types
 
@@ -346,6 +347,7 @@ class C08(Prop):
                                            st.text(alphabet='abcXYZ019 =+/', max_size=8)), max_size=3).map(
                 lambda l: [list(t) for t in l]),
             'polls': st.integers(1, 3), 'sends': st.integers(0, 3),
+            'via': st.sampled_from(['code', 'code', 'env']),
         })
         loopback = fd({'mode': st.just('loopback'), 'inner': synthetic,
                        # a full table: as many entries as the default limits allow, values of 1024 four-byte characters,
@@ -536,12 +538,20 @@ class C08(Prop):
         out.cls('auth', 'auth_' + r['kind'])
         custom = {'APP_ROOT': '/app'}
         exp = []
+        env = {}
         if r['kind'] == 'empty_string':
             custom['SERVICE_AUTH_PROVIDER'] = ''
         elif r['kind'] == 'basic':
             custom['SERVICE_AUTH_PROVIDER'] = 'deep.api.auth.BasicAuthProvider'
-            custom['SERVICE_USERNAME'] = r['user']
-            custom['SERVICE_PASSWORD'] = r['password']
+            if r.get('via') == 'env' and r['user'] is not None and r['password'] is not None \
+                    and '\x00' not in r['user'] + r['password']:
+                # the credentials come from the environment, where the application put them at some point before it
+                # started the agent (after `import deep`, as this process did long ago)
+                out.cls('credentials_from_the_environment')
+                env = {'DEEP_SERVICE_USERNAME': r['user'], 'DEEP_SERVICE_PASSWORD': r['password']}
+            else:
+                custom['SERVICE_USERNAME'] = r['user']
+                custom['SERVICE_PASSWORD'] = r['password']
             if r['user'] is not None and r['password'] is not None:
                 token = base64.b64encode((r['user'] + ':' + r['password']).encode('utf-8')).decode('utf-8')
                 exp = [('authorization', 'Basic%20' + token)]
@@ -565,6 +575,18 @@ class C08(Prop):
             custom['SERVICE_AUTH_PROVIDER'] = 'vf_auth_dyn.Prov'
             exp = md
         out.nontrivial = bool(exp)
+        old_env = {k: os.environ.get(k) for k in env}
+        os.environ.update(env)
+        try:
+            return self._auth_requests(out, r, custom, exp)
+        finally:
+            for k, v in old_env.items():
+                if v is None:
+                    os.environ.pop(k, None)
+                else:
+                    os.environ[k] = v
+
+    def _auth_requests(self, out, r, custom, exp):
         cfg = lab.make_cfg(custom)
         g = GRPCService(cfg)
 
